@@ -441,6 +441,28 @@ Proof.
   rewrite !in_map_iff. split; intros (e & E & Hin); exists e; (split; [exact E | apply H; exact Hin]).
 Qed.
 
+(** Induction over set configurations (the references are a nested list). *)
+Section SetInd.
+  Variable P : setdef -> Prop.
+  Hypothesis Hstep : forall own refs, Forall P refs -> P (SetDef own refs).
+  Fixpoint setdef_ind2 (s : setdef) : P s :=
+    match s with
+    | SetDef own refs =>
+      Hstep own refs
+        ((fix go (l : list setdef) : Forall P l :=
+            match l with
+            | [] => Forall_nil P
+            | x :: t => Forall_cons x (setdef_ind2 x) (go t)
+            end) refs)
+    end.
+End SetInd.
+
+Lemma qcov_app l1 l2 q : qcov (l1 ++ l2) q = qcov l1 q || qcov l2 q.
+Proof. destruct q; cbn [qcov]; try apply cov_app; reflexivity. Qed.
+
+Lemma load_app es1 es2 : load (es1 ++ es2) = load es1 ++ load es2.
+Proof. apply map_app. Qed.
+
 (** sort.Sort as a contract. *)
 Section SortContract.
   Variable srt : list pfx -> list pfx.
@@ -482,6 +504,47 @@ Section SortContract.
       + apply orb_false_r.
     - apply Forall_app. split; [|exact Hc].
       destruct (sort_with srt (load own)); constructor; [exact A | constructor].
+  Qed.
+
+  Lemma ipset_build_asc own (sets : list (list (list pfx))) :
+    Forall (Forall asc) sets -> Forall asc (ipset_build srt own sets).
+  Proof.
+    intro Hs. destruct (sort_with_asc (load own) (load_wf own)) as (A & _).
+    unfold ipset_build. apply Forall_app. split.
+    - destruct (sort_with srt (load own)); constructor; [exact A | constructor].
+    - induction Hs as [|g sets Hg _ IH]; cbn [concat]; [constructor | apply Forall_app; split; assumption].
+  Qed.
+
+  Lemma ipset_build_cov own (sets : list (list (list pfx))) q :
+    Forall (Forall asc) sets ->
+    existsb (fun e => qcov e q) (ipset_build srt own sets)
+    = qcov (load own) q || existsb (fun g => existsb (fun e => qcov e q) g) sets.
+  Proof.
+    intro Hs. pose proof (ipset_iff own sets q Hs) as H.
+    rewrite (group_lookup_asc _ q (ipset_build_asc own sets Hs)) in H.
+    injection H as H. exact H.
+  Qed.
+
+  (** Any configuration of sets referencing sets, to any depth: the matcher of
+      a set answers exactly "some entry loaded anywhere below it covers". *)
+  Lemma build_set_ok s :
+    Forall asc (build_set srt s)
+    /\ forall q, existsb (fun e => qcov e q) (build_set srt s) = qcov (load (all_entries s)) q.
+  Proof.
+    induction s as [own refs IH] using setdef_ind2. cbn [build_set all_entries].
+    assert (Hs : Forall (Forall asc) (map (build_set srt) refs)).
+    { induction IH as [|r refs [Hr _] _ IHr]; cbn [map]; constructor; assumption. }
+    split; [apply ipset_build_asc; exact Hs|].
+    intro q. rewrite (ipset_build_cov own _ q Hs), load_app, qcov_app. f_equal.
+    clear Hs. induction IH as [|r refs [_ Hr] _ IHr]; cbn [map existsb flat_map].
+    - destruct q; reflexivity.
+    - rewrite load_app, qcov_app, Hr, IHr. reflexivity.
+  Qed.
+
+  Theorem set_tree_iff s q :
+    group_lookup (build_set srt s) q = Some (qcov (load (all_entries s)) q).
+  Proof.
+    destruct (build_set_ok s) as (A & C). rewrite (group_lookup_asc _ q A), C. reflexivity.
   Qed.
 End SortContract.
 
